@@ -200,6 +200,7 @@ fn run_once<T: Sc, F: Factory<T>>(
     if let Err(e) = &r.build {
         rep.eat_str(e);
     }
+    expect_built(sc, rep, &r.build, r.build_panic.is_some(), "");
     for st in &r.steps {
         let op = &sc.ops[st.op];
         if let Some(pm) = &st.panic {
